@@ -71,6 +71,10 @@ def expectedSchema : List Gen.CodecSchema.Message :=
     renderMsg LineX.codec "lineDecoder" LineX.dict LineX.encSchema LineX.decTable,
     renderMsg FunctionX.codec "functionDecoder" FunctionX.dict FunctionX.encSchema FunctionX.decTable ]
 
+/-- the decoder side of a message type: what parsing (C02) depends on -/
+def decoderPart (m : Gen.CodecSchema.Message) : String × String × List Gen.CodecSchema.DecEntry :=
+  (m.name, m.decoderVar, m.dec)
+
 /-- position of every table entry = its index (Go indexes the table by the field number) -/
 def indexesArePositions (m : Gen.CodecSchema.Message) : Bool :=
   m.dec.map (·.index) == List.range m.dec.length
@@ -80,7 +84,9 @@ def indexesArePositions (m : Gen.CodecSchema.Message) : Bool :=
 `probe` is a profile of the model in which every string field carries its own one-byte marker.
 `internSites` pairs each `addString` call of the Go source (as the extractor describes it: symbolic
 paths of the enclosing loops/conditions and of the argument, no local names) with the marker of the model field it feeds.  The model's order is then
-READ OFF `Codec.preEncode probe` (theorem `intern_order_model` in Props), not typed in. -/
+READ OFF `Codec.preEncode probe` (theorem `intern_order_model` in Props), not typed in.  The
+mandatory empty string at index 0 (`addString(strings, "")` first, in preEncode or in the function
+that creates the table) is a fact of its own, `Gen.emptyStringInternedFirst`, not a site. -/
 
 def probe : Profile :=
   { sampleType := [{ typ := [1], unit := [2] }],
@@ -114,8 +120,7 @@ def internSites : List InternSite :=
   let labelVals := "p.Sample[].Label[" ++ labelKeys ++ "[]]"
   let numVals := "p.Sample[].NumLabel[" ++ numKeys ++ "[]]"
   let numUnits := "p.Sample[].NumUnit[" ++ numKeys ++ "[]]"
-  [ ⟨[], "\"\"", []⟩,                                                       -- addString(strings, "")
-    ⟨["range p.SampleType"], "p.SampleType[].Type", [1]⟩,
+  [ ⟨["range p.SampleType"], "p.SampleType[].Type", [1]⟩,
     ⟨["range p.SampleType"], "p.SampleType[].Unit", [2]⟩,
     -- per sample: string labels by sorted key, key then value for every value
     ⟨["range p.Sample", "range " ++ labelKeys, "range " ++ labelVals], labelKeys ++ "[]", [3]⟩,
